@@ -88,6 +88,9 @@ func S[T any](ch chan<- T) chan<- T {
 
 // Close is the rewritten close(ch).
 func Close[T any](ch chan<- T) {
+	// a close is visible to every thread selecting on the channel: other threads must be able to run between
+	// whatever the closing thread did before (an unlock, say) and the close
+	Yield()
 	if t := Me(); t != nil && ch != nil {
 		id := *(*uintptr)(unsafe.Pointer(&ch))
 		x := t.x
